@@ -229,6 +229,9 @@ def run_check(prop_id, tier, base_seed=None):
         skipped=merge("skips"),
         cases_per_mode=modes,
         truncated_workers=truncated,
+        slowest_cases=[dict(idx=r.get("idx"), mode=r.get("mode"), wall_s=round(r.get("wall", 0.0), 1))
+                       for r in sorted(records, key=lambda r: -r.get("wall", 0.0))[:3]],
+        case_wall_s_total=round(sum(r.get("wall", 0.0) for r in records), 1),
         components=prop.components,
         known_findings_hit=[dict(property=p, key=k, text=t, count=n) for (p, k), (t, n, _) in sorted(known_hits.items())],
         unconfirmed_findings=unconfirmed[:10],
